@@ -1364,3 +1364,50 @@ def strip_annotations(fn) -> int:
                 count += 1
             i += 1
     return count
+
+
+def list_literal_augments(fn) -> int:
+    """`xs += [a]` -> `xs.append(a)` ; `xs += [a, b]` -> `xs.extend([a, b])`   (a list literal on the right: xs is a list)"""
+    count = 0
+    for body in _stmt_blocks(fn):
+        for i, s in enumerate(body):
+            if isinstance(s, ast.AugAssign) and isinstance(s.op, ast.Add) and isinstance(s.value, ast.List) and isinstance(s.target, (ast.Name, ast.Attribute)) and s.value.elts \
+                    and not any(isinstance(e, ast.Starred) for e in s.value.elts):
+                recv = ast_copy(s.target)
+                recv.ctx = ast.Load()
+                if len(s.value.elts) == 1:
+                    call = ast.Call(func=ast.Attribute(value=recv, attr="append", ctx=ast.Load()), args=[s.value.elts[0]], keywords=[])
+                else:
+                    call = ast.Call(func=ast.Attribute(value=recv, attr="extend", ctx=ast.Load()), args=[s.value], keywords=[])
+                new = ast.Expr(value=call)
+                ast.copy_location(new, s)
+                ast.fix_missing_locations(new)
+                body[i] = new
+                count += 1
+    return count
+
+
+def joinpaths(fn) -> int:
+    """`p.joinpath(a, b)` -> `p / a / b`"""
+    count = 0
+
+    class T(ast.NodeTransformer):
+        def visit_Call(self, n):
+            nonlocal count
+            self.generic_visit(n)
+            if isinstance(n.func, ast.Attribute) and n.func.attr == "joinpath" and n.args and not n.keywords and not any(isinstance(a, ast.Starred) for a in n.args):
+                e = n.func.value
+                for a in n.args:
+                    e = ast.BinOp(left=e, op=ast.Div(), right=a)
+                count += 1
+                return ast.copy_location(e, n)
+            return n
+
+        def visit_FunctionDef(self, n):
+            return n
+
+        visit_AsyncFunctionDef = visit_FunctionDef
+
+    for i, st in enumerate(fn.body):
+        fn.body[i] = ast.fix_missing_locations(T().visit(st))
+    return count
